@@ -74,6 +74,13 @@ pub fn adc_fields_of(p: &AdcV3Packet) -> adc::AdcFields {
 
 pub fn adc(bytes: &[u8]) -> Diff {
     let lib = AdcV3Packet::try_from(bytes);
+    // a decoder is a function of its input: the same bytes again, and the version-dispatching wrapper
+    if AdcV3Packet::try_from(bytes).is_ok() != lib.is_ok() {
+        return bad("decoder-depends-on-history", format!("AdcV3Packet::try_from answers differently the second time: {}", hex(bytes)));
+    }
+    if AdcPacket::try_from(bytes).is_ok() != lib.is_ok() {
+        return bad("wrapper-differs", format!("AdcPacket::try_from and AdcV3Packet::try_from disagree on {}", hex(bytes)));
+    }
     let reference = adc::ref_adc(bytes);
     match (&lib, &reference) {
         (Err(_), Err(reason)) => {
@@ -154,6 +161,9 @@ pub fn chunk_fields_of(c: &Chunk) -> chunk::ChunkFields {
 
 pub fn chunk(bytes: &[u8]) -> Diff {
     let lib = Chunk::try_from(bytes);
+    if Chunk::try_from(bytes).is_ok() != lib.is_ok() {
+        return bad("decoder-depends-on-history", format!("Chunk::try_from answers differently the second time: {}", hex(bytes)));
+    }
     let reference = chunk::ref_chunk(bytes);
     match (&lib, &reference) {
         (Err(_), Err(reason)) => Ok(reason),
@@ -227,6 +237,12 @@ pub fn pwb_fields_of(p: &PwbV2Packet) -> Result<pwb::PwbFields, String> {
 
 pub fn pwb(bytes: &[u8]) -> Diff {
     let lib = PwbV2Packet::try_from(bytes);
+    if PwbV2Packet::try_from(bytes).is_ok() != lib.is_ok() {
+        return bad("decoder-depends-on-history", format!("PwbV2Packet::try_from answers differently the second time: {}", hex(bytes)));
+    }
+    if PwbPacket::try_from(bytes).is_ok() != lib.is_ok() {
+        return bad("wrapper-differs", format!("PwbPacket::try_from and PwbV2Packet::try_from disagree on {}", hex(bytes)));
+    }
     let reference = pwb::ref_pwb(bytes);
     match (&lib, &reference) {
         (Err(_), Err(reason)) => {
@@ -315,6 +331,12 @@ pub fn trg_fields_of(p: &TrgV3Packet) -> trg::TrgFields {
 
 pub fn trg(bytes: &[u8]) -> Diff {
     let lib = TrgV3Packet::try_from(bytes);
+    if TrgV3Packet::try_from(bytes).is_ok() != lib.is_ok() {
+        return bad("decoder-depends-on-history", format!("TrgV3Packet::try_from answers differently the second time: {}", hex(bytes)));
+    }
+    if TrgPacket::try_from(bytes).is_ok() != lib.is_ok() {
+        return bad("wrapper-differs", format!("TrgPacket::try_from and TrgV3Packet::try_from disagree on {}", hex(bytes)));
+    }
     let reference = trg::ref_trg(bytes);
     match (&lib, &reference) {
         (Err(_), Err(reason)) => {
